@@ -50,12 +50,15 @@ def gen_env(rng, fields):
     rows = []
     ck = rng.choice(["dense", "sparse", "none"])
     fn = rng.random() < 0.4
+    # action sets: fresh per interaction, or drawn from a small pool so that a set comes back after a different one (with and without the arms 0/1, which SafeLearner rewrites)
+    pool = [rng.sample([0, 1, 2, 3, 4, 5], rng.choice([2, 3])) for _ in range(2)] + [rng.sample([2, 3, 4, 5], rng.choice([2, 3]))] if rng.random() < 0.5 else None
+    some_none = rng.random() < 0.2      # logged data with a missing propensity here and there (counts as 1)
     for i in range(n):
-        acts = rng.sample([1, 2, 3, 4, 5], rng.choice([2, 3, 4]))
+        acts = list(rng.choice(pool)) if pool else rng.sample([1, 2, 3, 4, 5], rng.choice([2, 3, 4]))
         rw = [rng.choice([0, 0.25, 0.5, 1]) for _ in acts]
         j = rng.randrange(len(acts))
         r = {"context": [i, 1] if ck == "dense" else ({"a": i} if ck == "sparse" else None), "actions": acts,
-             "rewards": DiscreteReward(acts, rw) if (fn or "actions" not in fields) else rw, "action": acts[j], "reward": rw[j], "probability": rng.choice([0.25, 0.5, 1.0]), "extra": 100 + i}
+             "rewards": DiscreteReward(acts, rw) if (fn or "actions" not in fields) else rw, "action": acts[j], "reward": rw[j], "probability": None if some_none and rng.random() < 0.5 else rng.choice([0.25, 0.5, 1.0]), "extra": 100 + i}
         rows.append(({k: v for k, v in r.items() if k in fields or k == "extra"}, rw, j))
     return rows
 
